@@ -44,6 +44,30 @@ WS_TRAIL = [' ', '   ', '\t', ' \t', '\r', '\x0c']
 KNOWN_KEYS = ['let', 'field', 'match', 'category', 'subcategory', 'merchant', 'tags', 'priority']
 
 
+def casing(rnd, w):
+    return rnd.choice([w, w, w.upper(), w.title()])
+
+
+# systematic corpus: always run, whatever the seed (each base gets every layout edit and every corruption)
+CORPUS_M = [
+    # the same let name bound twice / three times, in the same and in another letter case; repeated field names
+    [('hdr', 'Wire'), ('prop', 'match', 'contains("WIRE")'), ('prop', 'let', 'ref', 'amount > 100'), ('prop', 'let', 'ref', 'x'),
+     ('prop', 'field', 'memo', '1'), ('prop', 'field', 'memo', 'is_large'), ('prop', 'category', 'Transfers')],
+    [('var', 'is_large', 'amount > 100'), ('hdr', 'Wire 2'), ('prop', 'let', 'Ref', '(amount)'), ('prop', 'let', 'ref', 'x'),
+     ('prop', 'let', 'REF', 'is_large'), ('prop', 'match', 'x'), ('prop', 'field', 'Kind', 'x'), ('prop', 'field', 'kind', '1'),
+     ('prop', 'field', 'KIND', 'amount > 100'), ('prop', 'tags', 'a, b'),
+     ('hdr', 'Other'), ('prop', 'let', 'ref', '1'), ('prop', 'match', 'ref'), ('prop', 'category', 'Food')],
+    # a let, a field and the match sharing one expression text; two match lines (the last one is the rule's)
+    [('hdr', 'Same'), ('prop', 'let', 'a', 'x'), ('prop', 'field', 'a', 'x'), ('prop', 'match', 'x'), ('prop', 'match', 'amount > 100'),
+     ('prop', 'let', 'match', 'x'), ('prop', 'category', 'C'), ('prop', 'category', 'D'), ('prop', 'tags', 'a'), ('prop', 'tags', 'b, c'),
+     ('prop', 'priority', '1'), ('prop', 'priority', '2')],
+]
+CORPUS_V = [
+    [('gvar', 'big', '1'), ('gvar', 'Big', 'total > 100'), ('hdr', 'V'), ('svar', 'x', '1'), ('svar', 'X', 'total > 100'),
+     ('filter', 'x'), ('filter', 'total > 100'), ('desc', 'one'), ('desc', 'two'), ('hdr', 'v'), ('filter', '1'), ('svar', 'x', '1')],
+]
+
+
 def gen_m_items(rnd, nsec=None):
     items = []
     used = set()
@@ -67,11 +91,12 @@ def gen_m_items(rnd, nsec=None):
             props.append(('merchant', rnd.choice(NAMES)))
         if rnd.random() < 0.4:
             props.append(('priority', rnd.choice(['10', '+5', '-3', '1_000', '007', '0'])))
-        lets = rnd.sample(IDENTS, rnd.choice([0, 0, 1, 2]))
-        for n in lets:
-            props.append(('let', n, rnd.choice(VALID_EXPRS)))
-        for n in rnd.sample(['memo', 'Kind', 'x_1'], rnd.choice([0, 0, 1, 2])):
-            props.append(('field', n, rnd.choice(VALID_EXPRS)))
+        # let names may repeat (a list of bindings: `let: ref = …` then `let: Ref = f(ref)`), field names too (a dict:
+        # the last line for a lower-cased name wins)
+        for _ in range(rnd.choice([0, 0, 1, 2, 3])):
+            props.append(('let', casing(rnd, rnd.choice(['x', 'ref', 'is_large', '_t', 'q_2'])), rnd.choice(VALID_EXPRS)))
+        for _ in range(rnd.choice([0, 0, 1, 2, 3])):
+            props.append(('field', casing(rnd, rnd.choice(['memo', 'kind', 'x_1'])), rnd.choice(VALID_EXPRS)))
         rnd.shuffle(props)
         # lets keep their generated order among themselves (a list in the result)
         items += [('prop',) + p for p in props]
@@ -315,9 +340,17 @@ def corruptions(kind, items, lines, rnd):
         hl = (hdr_of[i] + 1) if hdr_of[i] is not None else None
         dele = lines[:i] + lines[i + 1:]
         exp = None
-        if kind == 'm' and it[0] == 'prop' and it[1] == 'match':
+        later = []
+        for x in items[i + 1:]:
+            if x[0] == 'hdr':
+                break
+            later.append(x)
+        sec_items = [x for j, x in enumerate(items) if hdr_of.get(j) == hdr_of[i] and x[0] != 'hdr'] if hdr_of[i] is not None else []
+        last_match = it[0] == 'prop' and it[1] == 'match' and not any(x[1] == 'match' for x in later)
+        last_field = it[0] == 'prop' and it[1] == 'field' and not any(x[1] == 'field' and x[2].lower() == it[2].lower() for x in later)
+        if kind == 'm' and last_match and sum(1 for x in sec_items if x[1] == 'match') == 1:
             exp = ('reject', hl)                      # the section now lacks its match
-        if kind == 'v' and it[0] == 'filter':
+        if kind == 'v' and it[0] == 'filter' and sum(1 for x in sec_items if x[0] == 'filter') == 1:
             exp = ('reject', hl)
         if kind == 'm' and it[0] == 'hdr' and not any(x[0] == 'hdr' for x in items[:i]):
             exp = ('reject', L)                       # its property lines now stand before the first header
@@ -338,11 +371,12 @@ def corruptions(kind, items, lines, rnd):
                     alt('invalid_expression', f'let: {it[2]} = {bad}', ('reject', hl))
                 elif it[1] == 'field':
                     alt('bad_field', rnd.choice([f'field: = {it[3]}', f'field: a.b = {it[3]}', f'field: {it[2]}', 'field: 9 = 1']), ('reject', L))
-                    alt('invalid_expression', f'field: {it[2]} = {bad}', ('reject', hl))
+                    # a field line overridden by a later one with the same (lower-cased) name is not the rule's field
+                    alt('invalid_expression', f'field: {it[2]} = {bad}', ('reject', hl) if last_field else None)
                 elif it[1] == 'priority':
                     alt('bad_priority', 'priority: ' + rnd.choice(['abc', '1.5', '', '1 0', '_1', '1__0', '5_', '--1', '0x10']), ('reject', L))
                 elif it[1] == 'match':
-                    alt('invalid_expression', f'match: {bad}', ('reject', hl))
+                    alt('invalid_expression', f'match: {bad}', ('reject', hl) if last_match else None)
             elif it[0] == 'hdr':
                 alt('header_unclosed', '[' + it[1], ('reject', L))
                 alt('header_empty', rnd.choice(['[]', '[  ]']), ('reject', L))
@@ -779,8 +813,9 @@ def build_cases(seed, tier):
         cases.append(kw)
         return kw['id']
     for kind in 'mv':
-        for b in range(nb[kind]):
-            items = (gen_m_items if kind == 'm' else gen_v_items)(rnd, nsec=(3 if b % 7 == 0 else None))
+        corpus = CORPUS_M if kind == 'm' else CORPUS_V
+        for b in range(-len(corpus), nb[kind]):
+            items = list(corpus[b]) if b < 0 else (gen_m_items if kind == 'm' else gen_v_items)(rnd, nsec=(3 if b % 7 == 0 else None))
             lines = [render(i) for i in items]
             lo = list(range(1, len(lines) + 1))
             base = add(kind=kind, lines=lines, role='base', spec=(spec_m if kind == 'm' else spec_v)(items, lo), nitems=len(items), items=items)
@@ -1028,7 +1063,8 @@ def main(tier):
                 tb = dict(zip(cd, run_impl(IMPL, {'exprs': cd})['exprs']))
                 b2, _, e2 = model_check([(kind, cand)], [rr], tb, name='C17_shrink')
                 return bool(b2)
-            sl, _ = shrink_lines(c['lines'], None, still) if len(bad) < 2000 else (c['lines'], None)
+            # shrinking through coqc is slow: only when this disagreement is what will be reported
+            sl, _ = shrink_lines(c['lines'], None, still) if not run.violations else (c['lines'], None)
             broken.append({'kind': 'broken-correspondence', 'obligation': 'model_vs_impl(C17.Model.parse_merchants/parse_views)',
                            'detail': {'file_kind': c['kind'], 'lines': sl, 'implementation': impl_one(c['kind'], sl), 'n_disagreements': len(bad),
                                       'role': c['role'], 'edit': c.get('edit')}})
